@@ -285,6 +285,11 @@ class SymPattern:
         self.pattern = real.pattern
         parsed = sre_parse.parse(real.pattern, real.flags)
         self.tree = list(parsed)
+        if self.tree and self.tree[0][0] == C.SUBPATTERN and self.tree[0][1][0] is None and self.tree[0][1][1] and not self.tree[0][1][2] \
+                and all(op == C.AT for op, _ in self.tree[1:]):
+            # `(?flags:...)` spanning the whole pattern: fold the flags into the pattern flags
+            self.flags |= self.tree[0][1][1]
+            self.tree = list(self.tree[0][1][3]) + self.tree[1:]
         _validate(self.tree)
         self.ngroups = real.groups
         self.names = dict(real.groupindex)
